@@ -92,7 +92,8 @@ def run_check(pid, tier, seed):
     rc = 0
     if unknown:
         rc = 1
-        rdir = os.path.join(VERIF, "replays", pid)
+        rdir = os.path.join(os.environ.get("VERIF_REPLAY_DIR") or
+                            os.path.join(VERIF, "replays"), pid)
         os.makedirs(rdir, exist_ok=True)
         seen = set()
         for v in unknown:
